@@ -300,6 +300,8 @@ def grad_diff(ans, a, n=1, axis=-1):
             return g
         return helper(undiff(g), n - 1)
 
+    if anp.shape(a)[axis] <= n:  # empty output: nothing flows back
+        return lambda g: vspace(a).zeros()
     return lambda g: helper(g, n)
 
 
